@@ -32,6 +32,7 @@ func init() {
 func RegisterDecorationName(name string, decor Decoration) {
 	registry.Lock()
 	registry.table[name] = decor
+	verifEvent("register", name)
 	registry.Unlock()
 }
 
@@ -47,6 +48,7 @@ func RegisteredDecorationNames() []string {
 		i++
 	}
 	sort.Strings(a)
+	verifEvent("list", "")
 	return a
 }
 
@@ -56,6 +58,7 @@ func RegisteredDecorationNames() []string {
 func Named(n string) Decoration {
 	registry.Lock()
 	d, ok := registry.table[n]
+	verifEvent("named", n)
 	registry.Unlock()
 	if ok {
 		return d
